@@ -6,7 +6,9 @@ From Soy Require Import Generated.Tables Proofs.ParserMeasure Proofs.ExprTotal.
 From Coq Require Import ZifyBool ZifyNat ZifyN Lia.
 Open Scope N_scope.
 
-Definition scans_ok (l : list scanrec) : Prop := Forall (fun r => sc_drained r = true) l.
+(* every nested scanner was drained, after at most |items| + 4 receives *)
+Definition scan_ok (r : scanrec) : Prop := sc_drained r = true /\ (sc_recv r <= sc_sent r + 4)%nat.
+Definition scans_ok (l : list scanrec) : Prop := Forall scan_ok l.
 Definition until_ok (u : list N) : Prop := ~ In 0 u.
 
 Lemma one_of_in c l : one_of c l = true -> In c l.
@@ -187,23 +189,44 @@ Variable lexq : bstr -> list tok.
 (* the scanner run on an attribute string yields well-formed items *)
 Hypothesis Hlexq : forall str, Forall (ParserMeasure.twf (N.of_nat (length str))) (lexq str).
 
+Lemma twf_shift il il' base t :
+  ParserMeasure.twf il t -> base + t_pos t <= il' -> ParserMeasure.twf il' (shift_tok base t).
+Proof.
+  unfold ParserMeasure.twf, twfb, shift_tok. cbn [t_pos t_typ t_val]. intros H Hp.
+  destruct (N.leb_spec (t_pos t) il); [|cbn in H; discriminate].
+  destruct (N.leb_spec (base + t_pos t) il'); [|lia]. exact H.
+Qed.
+
 Lemma parse_quoted_expr_post str s b :
   cinv s -> ckap s = b ->
-  cpost b (fun _ s' => c_p s' = c_p s) (parse_quoted_expr lexq parse_expr expr_fuel str s).
+  cpost b (fun _ s' => c_p s' = c_p s) (parse_quoted_expr inlen lexq parse_expr expr_fuel str s).
 Proof.
-  intros (Hi & Hs) Hb. unfold parse_quoted_expr. cbv zeta.
-  set (ts := lexq str). set (il := N.of_nat (length str)).
+  intros Hi Hb. pose proof (cinv_peek s Hi) as Hp. destruct Hi as (Hi & Hs). unfold parse_quoted_expr.
+  destruct (Nat.leb_spec 3 (cpeek s)) as [Hpk3|Hpk3]; [lia|]. cbv zeta.
+  set (tk := err_tok (c_p s)). set (len := N.of_nat (length str)).
+  set (inside := (len <=? t_pos tk) && (t_pos tk <=? inlen)).
+  set (base := if inside then t_pos tk - len else 0).
+  set (il := if inside then inlen else len).
+  set (ts := map (shift_tok base) (lexq str)).
+  assert (Hts : Forall (ParserMeasure.twf il) ts).
+  { unfold ts. apply Forall_forall. intros x Hx. apply in_map_iff in Hx. destruct Hx as (y & Ey & Hy). subst x.
+    pose proof (Hlexq str) as HF. rewrite Forall_forall in HF. pose proof (HF y Hy) as Hy'.
+    pose proof (twf_pos _ _ Hy') as Hyp. fold len in Hyp.
+    apply (twf_shift len); auto. unfold base, il. destruct inside eqn:Ein; [unfold inside in Ein|]; lia. }
   assert (Hi0 : ParserMeasure.pinv il 0 false (pst_init ts)).
-  { apply pinv_init; [apply Hlexq|lia|discriminate]. }
+  { apply pinv_init; [auto|lia|discriminate]. }
   pose proof (mu_init ts) as Hm.
   assert (Hf : (mu (pst_init ts) < expr_fuel ts)%nat) by (unfold expr_fuel; lia).
-  pose proof (parse_expr_ok il 0 false (expr_fuel ts) 0 (pst_init ts) _ Hi0 eq_refl Hf) as H.
-  destruct (parse_expr (expr_fuel ts) 0 (pst_init ts)) as [n p'|t c p'|m|]; cbn [ppost] in H; try contradiction.
-  - cbn [cpost]. unfold cinv. cbn [c_p c_scans add_scan]. split; [split; [auto|constructor; auto]|auto].
-  - destruct H as (A & B & C). subst t.
-    pose proof (twf_pos _ _ (pinv_err_tok _ _ _ _ A)) as Hpos. fold il.
+  pose proof (parse_expr_ok il 0 false (expr_fuel ts) 0 (pst_init ts) _ Hi0 eq_refl Hf) as HP.
+  destruct (parse_expr (expr_fuel ts) 0 (pst_init ts)) as [n p'|t c p'|m|]; cbn [ppost] in HP; try contradiction.
+  - destruct HP as (A & B & C). pose proof (pi_peek _ _ _ _ A).
+    assert (Hrk : (p_recv p' <= length ts + 4)%nat) by (unfold kap, lpz in *; cbn [pst_init p_recv p_peek] in *; lia).
+    cbn [cpost]. unfold cinv. cbn [c_p c_scans add_scan]. split; [split; [auto|constructor; [split; cbn; auto|auto]]|auto].
+  - destruct HP as (A & B & C). subst t. pose proof (pi_peek _ _ _ _ A).
+    assert (Hrk : (p_recv p' <= length ts + 4)%nat) by (unfold kap, lpz in *; cbn [pst_init p_recv p_peek] in *; lia).
+    pose proof (twf_pos _ _ (pinv_err_tok _ _ _ _ A)) as Hpos.
     destruct (N.leb_spec (t_pos (err_tok p')) il); [|lia].
-    cbn [cpost]. unfold cinv. cbn [c_p c_scans add_scan]. split; [split; [auto|constructor; auto]|]. unfold kap in Hb. lia.
+    cbn [cpost]. unfold cinv. cbn [c_p c_scans add_scan]. split; [split; [auto|constructor; [split; cbn; auto|auto]]|]. unfold kap in Hb. lia.
 Qed.
 End Quoted.
 
